@@ -100,8 +100,10 @@ func ksOp(keyIDs []string, kssSecret, kssRand *big.Int, hw []byte, context, nonc
 
 func genC14(g *Rng, tier string, emit func(Op)) {
 	ka, kb, kc := fixedKey("k1024a", true), fixedKey("k1024b", true), fixedKey("k2048", true)
-	pool := []*KeyPair{ka, kb, kc}
-	rounds := 4
+	// two keys of one issuer (counters 0 and 1): the protocol identifies keys by issuer AND counter
+	kd := rotatedKey(ka, kb, 1)
+	pool := []*KeyPair{ka, kb, kc, kd}
+	rounds := 8
 	if tier == "thorough" {
 		rounds = 40
 	}
